@@ -342,3 +342,64 @@ def owns(owners, oracle):
                 (o.endswith('*') and oracle.startswith(o[:-1])):
             return True
     return False
+
+
+def sweep_worker(args):
+    """run every nchunks-th case of a property's small-scope sweep"""
+    (prop, tier, chunk, nchunks, owners, deadline) = args
+    from .sweeps import SWEEPS, SWEEP_CFG
+    faulthandler.enable()
+    known = load_known()
+    scratch = tempfile.mkdtemp(prefix='verif-sweep-%s-' % prop)
+    cwd = os.getcwd()
+    os.chdir(scratch)
+    agg = {'cases': 0, 'events': 0, 'violations': [], 'signals': [],
+           'truncated': False, 'oracle_cases': set(), 'probe_count': Counter(),
+           'known_seen': Counter(), 'sample': None}
+    cfg = dict(SWEEP_CFG, scratch=scratch, tier=tier)
+    try:
+        for i, evs in enumerate(SWEEPS[prop](tier)):
+            if i % nchunks != chunk:
+                continue
+            if time.time() > deadline:
+                agg['truncated'] = True
+                break
+            got = {}
+            v, w, dig = run_events(evs, cfg, known, owners=owners,
+                                   collect=lambda ww: got.update(
+                                       cases=set(ww.cases),
+                                       pc=Counter(ww.probe_count),
+                                       ks=Counter(ww.known_seen)))
+            agg['cases'] += 1
+            agg['events'] += len(evs)
+            agg['oracle_cases'] |= got.get('cases', set())
+            agg['probe_count'].update(got.get('pc', {}))
+            agg['known_seen'].update(got.get('ks', {}))
+            if agg['sample'] is None:
+                agg['sample'] = evs
+            if v is None:
+                continue
+            if not owns(owners, v['oracle']):
+                if len(agg['signals']) < 10:
+                    agg['signals'].append({'case': i, 'oracle': v['oracle'],
+                                           'detail': v['detail'][:300]})
+                continue
+            if len(agg['violations']) >= 3:
+                continue
+            small, sv, _ = shrink(evs, cfg, known, v, owners=owners,
+                                  budget_s=15)
+            v2, _, dig = run_events(small, cfg, known, owners=owners)
+            if not same_failure(v2, sv):
+                small, sv = evs[:v['event'] + 1], v
+                v2, _, dig = run_events(small, cfg, known, owners=owners)
+            path = write_replay(prop, 900000000 + i, small, cfg, sv, dig,
+                                len(evs))
+            agg['violations'].append({'seed': 900000000 + i,
+                                      'oracle': sv['oracle'],
+                                      'detail': sv['detail'][:600],
+                                      'replay': path, 'events': len(small)})
+    finally:
+        os.chdir(cwd)
+        shutil.rmtree(scratch, ignore_errors=True)
+    agg['oracle_cases'] = sorted(agg['oracle_cases'])
+    return agg
